@@ -28,6 +28,9 @@ pub enum Op {
     /// parse + compile subject into `slot`; `script` = clock deltas before successive reads;
     /// `twice` compiles the same tree a second time (continuing the script) into the same slot
     Compile { subj: usize, slot: usize, script: Vec<i64>, twice: bool },
+    /// parse + compile subject into `slot` and observe nothing (no render, no table query): what
+    /// the caller does first with the value is up to the following operations
+    CompileQuiet { subj: usize, slot: usize },
     Render { slot: usize, path: usize },
     IoMap { slot: usize },
     /// parse+compile+render other expressions; results ignored
@@ -48,6 +51,7 @@ impl Op {
             Op::Parse { .. } => "Parse",
             Op::Compile { twice: false, .. } => "Compile",
             Op::Compile { twice: true, .. } => "Compile2",
+            Op::CompileQuiet { .. } => "CompileQuiet",
             Op::Render { .. } => "Render",
             Op::IoMap { .. } => "IoMap",
             Op::Unrelated { .. } => "Unrelated",
@@ -65,6 +69,7 @@ impl Op {
             Op::Compile { subj, slot, script, twice } => {
                 json!({"op":"Compile","subj":subj,"slot":slot,"script":script,"twice":twice})
             }
+            Op::CompileQuiet { subj, slot } => json!({"op":"CompileQuiet","subj":subj,"slot":slot}),
             Op::Render { slot, path } => json!({"op":"Render","slot":slot,"path":path}),
             Op::IoMap { slot } => json!({"op":"IoMap","slot":slot}),
             Op::Unrelated { texts, script } => json!({"op":"Unrelated","texts":texts,"script":script}),
@@ -94,6 +99,7 @@ impl Op {
                 script: script("script")?,
                 twice: v["twice"].as_bool().unwrap_or(false),
             },
+            "CompileQuiet" => Op::CompileQuiet { subj: us("subj")?, slot: us("slot")? },
             "Render" => Op::Render { slot: us("slot")?, path: us("path")? },
             "IoMap" => Op::IoMap { slot: us("slot")? },
             "Unrelated" => Op::Unrelated {
@@ -170,6 +176,7 @@ impl Scenario {
                 Op::ClockShift { delta } => words.push(delta.signum() as u64),
                 Op::SwitchThread { t } => words.push(*t as u64),
                 Op::Render { slot, path } => words.push((*slot * 16 + *path) as u64),
+                Op::CompileQuiet { subj, slot } => words.push((*subj * 8 + *slot) as u64),
                 _ => {}
             }
         }
@@ -218,6 +225,8 @@ pub enum Obs {
         /// before the call (reach probe for the hash-key seam)
         probe_order: u64,
     },
+    /// a handle was created without being looked at
+    CompiledQuiet { subj: usize, slot: usize, ok: bool },
     Rendered { slot: usize, path: usize, text: String, clock_reads: usize },
     IoMapped { slot: usize, table: Table },
     Panicked { what: &'static str, subj_or_slot: usize, message: String },
@@ -369,6 +378,7 @@ pub fn hash_order_probe() -> u64 {
 }
 
 enum Job {
+    CompileQuiet { subj: usize, slot: usize, text: String },
     Parse { subj: usize, text: String },
     Compile { subj: usize, slot: usize, text: String, script: Vec<i64>, twice: bool },
     Render { slot: usize, path_idx: usize, compiled: Arc<Handoff<Compiled>>, path: String },
@@ -411,6 +421,20 @@ fn caller_thread(env: Env, hash_key: u64, jobs: Receiver<Job>, replies: Sender<R
         let mut reply = Reply { obs: vec![], compiled: vec![] };
         match job {
             Job::Stop => break,
+            Job::CompileQuiet { subj, slot, text } => {
+                let r = catch_unwind(AssertUnwindSafe(|| {
+                    let (opts, tree) = parse(&text).map_err(|e| format!("parse error: {e}"))?;
+                    compile_tree(&tree, &opts)
+                }));
+                match r {
+                    Ok(Ok(c)) => {
+                        reply.obs.push(Obs::CompiledQuiet { subj, slot, ok: true });
+                        reply.compiled.push(Handoff(c));
+                    }
+                    Ok(Err(_)) => reply.obs.push(Obs::CompiledQuiet { subj, slot, ok: false }),
+                    Err(p) => reply.obs.push(Obs::Panicked { what: "compile", subj_or_slot: subj, message: panic_message(p) }),
+                }
+            }
             Job::Parse { subj, text } => {
                 let r = catch_unwind(AssertUnwindSafe(|| match parse(&text) {
                     Ok((opts, tree)) => Ok(format!("{opts:?} {tree:?}")),
@@ -685,6 +709,13 @@ pub fn execute(sc: &Scenario) -> Outcome {
                     continue;
                 }
             },
+            Op::CompileQuiet { subj, slot } => match sc.subjects.get(*subj) {
+                Some(t) => Job::CompileQuiet { subj: *subj, slot: *slot, text: t.clone() },
+                None => {
+                    obs.push((idx, Obs::Nothing));
+                    continue;
+                }
+            },
             Op::Render { slot, path } => match (slots.get(slot), sc.paths.get(*path)) {
                 (Some(c), Some(p)) => Job::Render { slot: *slot, path_idx: *path, compiled: c.clone(), path: p.clone() },
                 _ => {
@@ -722,7 +753,7 @@ pub fn execute(sc: &Scenario) -> Outcome {
         sim_seconds += env.lock().unwrap().now.abs_diff(before_now);
         let mut compiled = reply.compiled.into_iter();
         for o in reply.obs {
-            if let Obs::Compiled { slot, text: Ok(_), .. } = &o {
+            if let Obs::Compiled { slot, text: Ok(_), .. } | Obs::CompiledQuiet { slot, ok: true, .. } = &o {
                 if let Some(c) = compiled.next() {
                     slots.insert(*slot, Arc::new(c));
                 }
